@@ -441,4 +441,101 @@ theorem soft_hL_eq_hE {B P : Nat} {probs : List SF} {norm : Option SF}
   rw [hcum, hcumL, prefixSums_getD, prefixSums_getD]
   exact (psList_zpair f _ B probs (.fin false 0) (.fin true 0) (Or.inr ⟨rfl, rfl⟩) hall' i).symm
 
+/-! ### the leaky quantizer: `GOk` from the contract of the caller's `Distribution`
+
+`LeakilyQuantizedDistribution` computes `g s = (free_weight * distribution(s - 0.5)) as Probability`
+with `free_weight : F` obtained from a `Probability` by the lossless `Into<F>` (so it is exact).
+If the values the caller's `Distribution` returns are in `[0, 1]` and do not decrease — the
+documented contract of a cumulative distribution function — then `g` does not decrease and is
+bounded by `free`: the hypothesis `GOk` of the integer layer. -/
+
+theorem mul_comm' (a b : SF) : f.mul a b = f.mul b a := by
+  have hb : ∀ x y : Bool, (x != y) = (y != x) := by decide
+  cases a with
+  | nan => cases b <;> simp [Fmt.mul]
+  | inf x =>
+    cases b with
+    | nan => simp [Fmt.mul]
+    | inf y => simp only [Fmt.mul]; rw [hb]
+    | fin y k => simp only [Fmt.mul]; rw [hb]
+  | fin x k =>
+    cases b with
+    | nan => simp [Fmt.mul]
+    | inf y => simp only [Fmt.mul]; rw [hb]
+    | fin y k' => simp only [Fmt.mul]; rw [hb, Nat.mul_comm]
+
+/-- a value in `[0, 1]`: finite, non-negative, at most `1.0 = 2^M` units -/
+def SF.Unit01 (f : Fmt) : SF → Prop
+  | .fin false k => k ≤ 2 ^ f.M
+  | _ => False
+
+theorem SF.Unit01.nn {f : Fmt} {c : SF} (h : SF.Unit01 f c) : c.NN := by
+  cases c with
+  | fin n k => cases n <;> simp_all [SF.Unit01, SF.NN]
+  | _ => simp [SF.Unit01] at h
+
+/-- an unsigned integer below `2^p` converts exactly -/
+theorem ofNat_exact (hp : 1 ≤ f.p) (hM : f.M ≤ f.expMask - 2) {n : Nat} (hn : n < 2 ^ f.p) :
+    f.ofNat n = .fin false (n * 2 ^ f.M) ∧ Rep f (n * 2 ^ f.M) := by
+  have hrep : Rep f (n * 2 ^ f.M) := by
+    constructor
+    · unfold Fmt.limit
+      calc n * 2 ^ f.M < 2 ^ f.p * 2 ^ f.M := Nat.mul_lt_mul_of_pos_right hn (two_pow_pos' _)
+        _ = 2 ^ (f.p + f.M) := (Nat.pow_add _ _ _).symm
+        _ ≤ 2 ^ (f.p + (f.expMask - 2)) := Nat.pow_le_pow_right (by decide) (by omega)
+    · by_cases h0 : n = 0
+      · subst h0; left; simp; exact two_pow_pos' _
+      · right
+        rw [log2_mul_two_pow h0]
+        have hl : n.log2 < f.p := (Nat.log2_lt h0).2 hn
+        have : n.log2 + f.M + 1 - f.p ≤ f.M := by omega
+        exact Nat.dvd_trans (Nat.pow_dvd_pow 2 this) (Nat.dvd_mul_left _ _)
+  refine ⟨?_, hrep⟩
+  unfold Fmt.ofNat
+  rw [roundMag_self f hrep]; rfl
+
+/-- **`GOk` from the CDF contract**: values in `[0, 1]` that do not decrease along the support -/
+theorem leaky_gok_of_cdf (hp : 1 ≤ f.p) (hM : f.M ≤ f.expMask - 2) {m : LQ} (hfree : m.free < 2 ^ f.p)
+    (hB : m.free < 2 ^ m.B) (cdf : Int → SF)
+    (h01 : ∀ s, m.min < s → s ≤ m.max + 1 → SF.Unit01 f (cdf s))
+    (hmono : ∀ s, m.min < s → s < m.max → SF.nnLe (cdf s) (cdf (s + 1))) :
+    GOk m (fun s => f.toUInt m.B (f.mul (f.ofNat m.free) (cdf s))) := by
+  obtain ⟨hof, hrep⟩ := ofNat_exact f hp hM hfree
+  constructor
+  · intro s h1 h2
+    show f.toUInt m.B (f.mul (f.ofNat m.free) (cdf s)) ≤ f.toUInt m.B (f.mul (f.ofNat m.free) (cdf (s + 1)))
+    rw [mul_comm' f (f.ofNat m.free), mul_comm' f (f.ofNat m.free)]
+    exact mul_toUInt_mono f hp (h01 s h1 (by omega)).nn (h01 (s + 1) (by omega) (by omega)).nn
+      (hmono s h1 h2) _ _
+  · intro s h1 h2
+    show f.toUInt m.B (f.mul (f.ofNat m.free) (cdf s)) ≤ m.free
+    have hc := h01 s h1 (by omega)
+    rw [hof]
+    cases hcs : cdf s with
+    | nan => rw [hcs] at hc; simp [SF.Unit01] at hc
+    | inf b => rw [hcs] at hc; simp [SF.Unit01] at hc
+    | fin n k =>
+      rw [hcs] at hc
+      cases n with
+      | true => simp [SF.Unit01] at hc
+      | false =>
+        have hk : k ≤ 2 ^ f.M := hc
+        have hD := two_pow_pos' f.M
+        -- the product is at most `free * 1.0`, which is `free` exactly
+        have hm := roundMag_mono f hp (a := m.free * 2 ^ f.M * k) (b := 2 ^ f.M)
+          (c := m.free * 2 ^ f.M) (d := 1) hD (by decide)
+          (by rw [Nat.mul_one]; exact Nat.mul_le_mul_left _ hk)
+        rw [roundMag_self f hrep] at hm
+        simp only [Fmt.mul, bne_self_eq_false]
+        cases hr : roundMag f (m.free * 2 ^ f.M * k) (2 ^ f.M) with
+        | none => rw [hr] at hm; simp [MagLe] at hm
+        | some x =>
+          rw [hr] at hm
+          have hx : x ≤ m.free * 2 ^ f.M := hm
+          simp only [SF.ofMag, Fmt.toUInt, Bool.false_eq_true, if_false]
+          have h1 : x >>> f.M ≤ m.free := by
+            rw [Nat.shiftRight_eq_div_pow]
+            exact Nat.div_le_of_le_mul (by rw [Nat.mul_comm]; exact hx)
+          omega
+
 end CV.Quant
